@@ -509,6 +509,18 @@ class SymEval:
             except (TypeError, sp.SympifyError):
                 pass
             if isinstance(a, sp.Basic) and isinstance(b, sp.Basic):
+                # (p < q) ? p : q  ==  min(p, q);   (p < q) ? q : p  ==  max(p, q)   (and the mirrored comparisons)
+                try:
+                    cv = sp.sympify(cond)
+                    if isinstance(cv, (sp.StrictLessThan, sp.LessThan, sp.StrictGreaterThan, sp.GreaterThan)):
+                        p_, q_ = cv.args
+                        less = isinstance(cv, (sp.StrictLessThan, sp.LessThan))
+                        if zero(sp.sympify(a) - p_) and zero(sp.sympify(b) - q_):
+                            return (sp.Min if less else sp.Max)(p_, q_)
+                        if zero(sp.sympify(a) - q_) and zero(sp.sympify(b) - p_):
+                            return (sp.Max if less else sp.Min)(p_, q_)
+                except (TypeError, sp.SympifyError):
+                    pass
                 return self.atom_fn("ite", [cond, a, b], e.get("t", "double"))
             raise Decline("conditional with different record branches")
         if k in ("CXXStaticCastExpr", "CStyleCastExpr", "CXXFunctionalCastExpr", "CXXConstCastExpr"):
